@@ -25,7 +25,7 @@ ASSUMPTIONS = [
     'string characters are printable ASCII (plus the listed escapes); \\0 is never followed by an octal digit',
     'fill counts are non-negative; first-pass expressions use earlier names only',
 ]
-BUDGET = {'quick': 4000, 'thorough': 200000}
+BUDGET = {'quick': 4000, 'thorough': 400000}
 LEVEL_TEXT = ('Exploration: masking, byte order, escapes, terminators and the inclusive/exclusive edges of the fill '
               'family are checked over generated values, strings and cursor-relative targets with an independent '
               'emitter.')
